@@ -1445,10 +1445,7 @@ func (m *Machine) Eval(source string, fn func(), ctx context.Context) bool {
 		canceled.Store(true)
 		m.log(LogOps, "[eval:timeout] %s", source)
 		err := fmt.Errorf("%w: eval:%s", ErrEvalTimeout, source)
-		select {
-		case m.errInternal <- err:
-		default:
-		}
+		m.sendErrInternal(err)
 		return false
 
 	case <-m.ctx.Done():
@@ -2414,11 +2411,7 @@ func (m *Machine) processHandlers(e *Event) (Result, bool) {
 		}
 
 		handlerCalled = true
-		select {
-		case <-m.ctx.Done():
-			break
-		case m.handlerStart <- call:
-		}
+		m.sendHandlerCall(call)
 
 		// reuse the timer each time
 		m.handlerTimer.Reset(m.HandlerTimeout)
@@ -2434,10 +2427,7 @@ func (m *Machine) processHandlers(e *Event) (Result, bool) {
 			m.log(LogOps, "[cancel] (%s) by timeout", j(tx.TargetStates()))
 			m.log(LogDecisions, "[handler:timeout]: %s from %s", methodName, h.id)
 			err := fmt.Errorf("%w: %s from %s", ErrHandlerTimeout, methodName, h.id)
-			select {
-			case m.errInternal <- err:
-			default:
-			}
+			m.sendErrInternal(err)
 			timeout = true
 			// a timeout cancels the whole transition, it's not a partial auto
 			// state rejection
@@ -2522,6 +2512,36 @@ func (m *Machine) processHandlers(e *Event) (Result, bool) {
 	}
 
 	return Executed, handlerCalled
+}
+
+// sendErrInternal reports an internal error, if anyone listens. The channel
+// gets closed by doDispose, which can land while a handler or an eval of a
+// still running transition times out.
+func (m *Machine) sendErrInternal(err error) {
+	defer func() {
+		// send on a closed channel (disposed meanwhile)
+		_ = recover()
+	}()
+
+	select {
+	case m.errInternal <- err:
+	default:
+	}
+}
+
+// sendHandlerCall passes the call to the handler loop, unless the machine's
+// context is done. The channel gets closed by doDispose, which can land while
+// a transition of a mutating goroutine is still calling handlers.
+func (m *Machine) sendHandlerCall(call *handlerCall) {
+	defer func() {
+		// send on a closed channel (disposed meanwhile)
+		_ = recover()
+	}()
+
+	select {
+	case <-m.ctx.Done():
+	case m.handlerStart <- call:
+	}
 }
 
 func (m *Machine) handlerLoop() {
